@@ -181,8 +181,13 @@ class BaseFormOperator(Operator, BaseForm, Counted):
         r += f"; derivatives={self.derivatives!r})"
         return r
 
-    def __hash__(self):
-        """Hash code for use in dicts."""
+    def _ufl_compute_hash_(self):
+        """Compute a hash code for this expression. Used by sets and dicts.
+
+        The operands do not determine a base form operator: the hash must
+        also cover the argument slots, derivatives and function space, or
+        expressions differing only there are taken for equal.
+        """
         hashdata = (
             type(self),
             tuple(hash(op) for op in self.ufl_operands),
